@@ -47,9 +47,14 @@ def build(shape, scripts, lfaults=None, kind='c', extra=None):
     return spec
 
 
-def script_events(t, modname='vtw.tests'):
-    """[(kind 'F'|'E'|'S', name)] produced by ONE execution of test t."""
+def script_events(t, modname='vtw.tests', nth=1):
+    """[(kind 'F'|'E'|'S', name)] produced by ONE execution of test t (the
+    nth one in its process)."""
     s = t['s']
+    if '@' in s:
+        s, k = s.split('@')
+        if int(k) != nth:
+            s = 'pass'
     if t.get('dt'):
         # str() of a doctest case
         from vt import worldrt
@@ -60,8 +65,12 @@ def script_events(t, modname='vtw.tests'):
             base = '%s (%s)' % (dn.split('.')[-1], '.'.join(dn.split('.')[:-1]))
         return [('F', base)] if s == 'fail' else []
     base = 'test_%s (%s.T_%s.test_%s)' % (t['n'], modname, t['n'], t['n'])
-    if s in ('pass', 'xfail'):
+    if s in ('pass', 'xfail', 'leave_replaced', 'warnfilter'):
         return []
+    if s == 'sub_skip':
+        return [('S', '%s (i=0)' % base)]
+    if s == 'redir_sub_fail':
+        return [('F', '%s (i=0)' % base)]
     if s in ('skip_dec', 'skip_cls', 'skip_setup', 'skip_body'):
         return [('S', base)]
     if s in ('fail', 'uxs'):
@@ -99,6 +108,7 @@ class Truth:
         self.skip = 0
         self.layer_err = []                      # (vpid, layer, phase)
         self.per_layer_runs = collections.Counter()   # (layer) -> run> events
+        nth = collections.Counter()
         for ev in res.trace:
             vpid = ev[0]
             if ev[1] == 't' and ev[3] == 'run>':
@@ -107,7 +117,8 @@ class Truth:
                 self.run_vpid[tid].add(vpid)
                 t = sv.tests[tid]
                 self.per_layer_runs[t.get('l')] += 1
-                for k, name in script_events(t, mod):
+                nth[(vpid, tid)] += 1
+                for k, name in script_events(t, mod, nth[(vpid, tid)]):
                     if k == 'F':
                         self.fail[name] += 1
                     elif k == 'E':
